@@ -246,7 +246,10 @@ def check_c16(tier, seed):
         prior_names = ["absent", "older", "identical-other-mode", "unrelated", "base-is-file"]
         if tier != "quick":
             prior_names += ["older-partial", "older-readonly-mode", "skill-dir-has-extra"]
-        modes = ["default", "user", "path-rel", "path-abs", "path-user", "path-rel-user", "path-rel-dotdot"]
+        # custom paths also include ones that merely *look* like an installation (last element named like the skill
+        # directory, or like an agent's own sub-path): the skill directory is still created below them
+        modes = ["default", "user", "path-rel", "path-abs", "path-user", "path-rel-user", "path-rel-dotdot",
+                 "path-rel-named-like-skill", "path-abs-named-like-skill-user", "path-rel-named-like-subpath"]
         for agent in sorted(documented):
             proj, user = documented[agent]
             for mode in modes:
@@ -265,6 +268,12 @@ def check_c16(tier, seed):
                         base = os.path.join(sb.other, "both"); args += ["--path", base, "--user"]
                     elif mode == "path-rel-user":
                         base = os.path.join(sb.cwd, "tools", "skills"); args += ["--path", "tools/skills", "--user"]
+                    elif mode == "path-rel-named-like-skill":
+                        base = os.path.join(sb.cwd, "vendor", "kessoku-di"); args += ["--path", "vendor/kessoku-di"]
+                    elif mode == "path-abs-named-like-skill-user":
+                        base = os.path.join(sb.other, "kessoku-di"); args += ["--path", base, "--user"]
+                    elif mode == "path-rel-named-like-subpath":
+                        base = os.path.join(sb.cwd, "x", proj); args += ["--path", os.path.join("x", proj)]
                     else:
                         base = os.path.join(sb.root, "sibling", "x"); args += ["--path", "../sibling/x"]
                     skill = os.path.join(base, "kessoku-di")
@@ -346,6 +355,6 @@ def check_c16(tier, seed):
         sb.close()
     R.samples = samples
     R.coverage.update({"evaluations": runs, "distinct_nontrivial": runs - 1, "exhaustive": True, "traces_validated_against_impl": runs,
-                       "rule": "all documented agents x {default, --user, --path relative, --path absolute, --path absolute with --user, --path relative with --user, --path ../relative} x prior states %s, each with bystander files in $HOME, cwd and an unrelated directory; before/after snapshots of all three; every combination is distinct" % prior_names})
+                       "rule": "all documented agents x {default, --user, --path relative, --path absolute, --path absolute with --user, --path relative with --user, --path ../relative, --path whose last element is the skill directory's name (relative / absolute with --user), --path ending in the agent's own sub-path} x prior states %s, each with bystander files in $HOME, cwd and an unrelated directory; before/after snapshots of all three; every combination is distinct" % prior_names})
     R.assumptions = ["the README table is the documentation the property refers to", "kong dispatches a sub-command to the AgentCmd of the same field (validated by running every sub-command)"]
     return R.finish("cd lean && lake build KV.Props.C16 && lake env lean <audit of Props/C16 theorems>", TRUSTED)
